@@ -494,6 +494,19 @@ def check_manager_construction(p, report):
             tree = tree or FuncTree(f.node)
             guards = [owner.test for (s_, owner, field, idx) in tree.ancestors(st) if isinstance(owner, ast.If) and field == "body"]
             once = any(_implies_not_hasattr(g, "budget_manager_") for g in guards)
+            if not once and f.cls is not None and f.name.startswith("_"):
+                # the creation was extracted into a private helper: every call of it sits under the guard
+                calls = []
+                for g_ in f.cls.methods.values():
+                    gt = None
+                    for c in ast.walk(g_.node):
+                        if isinstance(c, ast.Call) and isinstance(c.func, ast.Attribute) and c.func.attr == f.name \
+                                and isinstance(c.func.value, ast.Name) and c.func.value.id == "self":
+                            gt = gt or FuncTree(g_.node)
+                            cg = [owner.test for (s_, owner, field, idx) in gt.ancestors(gt.stmt_of(c))
+                                  if isinstance(owner, ast.If) and field == "body"]
+                            calls.append(any(_implies_not_hasattr(x, "budget_manager_") for x in cg))
+                once = bool(calls) and all(calls)
             a0 = st.value.args[0] if st.value.args else next((k.value for k in st.value.keywords if k.arg == "budget"), None)
             cfg = a0 is not None and ast.unparse(a0) == "self.budget"
             n += 1
